@@ -339,3 +339,40 @@ pub fn make_formatter(config: &FormattingConfig) -> Formatter {
         ))
         .build()
 }
+
+/// Verification hooks (feature `pasfmt_verif`): the configuration's fields are private and can
+/// otherwise only be set through serde.
+#[cfg(feature = "pasfmt_verif")]
+pub mod verif_hooks_config {
+    use super::*;
+
+    #[allow(clippy::too_many_arguments)]
+    pub fn config(
+        wrap_column: u32,
+        begin_always_wrap: bool,
+        format_multiline_strings: bool,
+        use_tabs: bool,
+        tab_width: u8,
+        continuation_indents: u8,
+        crlf: bool,
+    ) -> FormattingConfig {
+        FormattingConfig {
+            wrap_column,
+            begin_style: if begin_always_wrap {
+                BeginStyle::Always_Wrap
+            } else {
+                BeginStyle::Auto
+            },
+            format_multiline_strings,
+            encoding: InternalEncoding::Named(encoding_rs::UTF_8),
+            use_tabs,
+            tab_width,
+            continuation_indents,
+            line_ending: if crlf {
+                LineEnding::Crlf
+            } else {
+                LineEnding::Lf
+            },
+        }
+    }
+}
